@@ -280,11 +280,12 @@ type c15Cand struct {
 func (c *c15Cand) key() string { return fmt.Sprint(c.Path) }
 
 type c15RuleResult struct {
-	Winners  []*c15Cand // marshal order
-	All      []*c15Cand
-	Fallback *c15Cand
-	DocErr   string // a documented reason why the type is invalid ("" if none)
-	DupQuirk bool   // some struct with embedded struct children is reached twice at its first depth
+	Winners                         []*c15Cand // marshal order
+	All                             []*c15Cand
+	Fallback                        *c15Cand
+	DocErr                          string // a documented reason why the type is invalid ("" if none)
+	Shadowed, TieBroken, TieDropped int    // names decided by depth / by the explicit name / dropped
+	DupQuirk                        bool   // some struct with embedded struct children is reached twice at its first depth
 }
 
 func c15PathLess(a, b []int) bool {
@@ -393,8 +394,14 @@ func c15Rule(g *c15Graph) *c15RuleResult {
 		switch {
 		case len(at) == 1:
 			r.Winners = append(r.Winners, at[0])
+			if len(cs) > 1 {
+				r.Shadowed++
+			}
 		case len(tagged) == 1:
 			r.Winners = append(r.Winners, tagged[0])
+			r.TieBroken++
+		default:
+			r.TieDropped++
 		}
 	}
 	sort.Slice(r.Winners, func(i, j int) bool { return c15PathLess(r.Winners[i].Path, r.Winners[j].Path) })
@@ -652,10 +659,14 @@ func c15GenType(rng *rand.Rand, c *Ctx) (t reflect.Type, ok bool) {
 		var fields []reflect.StructField
 		used := map[string]bool{}
 		hasFb := false
+		bigRefs := 0
 		goName := func(k int) string {
 			if !isBig {
 				for try := 0; try < 3; try++ {
 					s := c15GoNames[rng.IntN(len(c15GoNames))]
+					if try == 0 && rng.IntN(2) == 0 {
+						s = c15GoNames[rng.IntN(8)]
+					}
 					if !used[s] {
 						used[s] = true
 						return s
@@ -671,11 +682,11 @@ func c15GenType(rng *rand.Rand, c *Ctx) (t reflect.Type, ok bool) {
 			var opts []string
 			name := ""
 			cat := rng.IntN(100)
-			if isBig && cat >= 8 {
+			if isBig && (cat >= 8 || bigRefs >= 2) {
 				cat = 99
 			}
 			switch {
-			case cat < 28 && i < n-1: // struct reference
+			case (cat < 28 || (cat < 40 && k < 2 && n > 2)) && i < n-1: // struct reference
 				j := i + 1
 				if rng.IntN(3) == 0 {
 					j = i + 1 + rng.IntN(n-1-i)
@@ -685,7 +696,12 @@ func c15GenType(rng *rand.Rand, c *Ctx) (t reflect.Type, ok bool) {
 					sf.Type = reflect.PointerTo(sf.Type)
 				}
 				sf.Name = goName(k)
-				switch m := rng.IntN(20); {
+				m := rng.IntN(20)
+				if isBig {
+					bigRefs++
+					m = rng.IntN(15)
+				}
+				switch {
 				case m < 11:
 					sf.Anonymous = true
 				case m < 15:
@@ -727,8 +743,11 @@ func c15GenType(rng *rand.Rand, c *Ctx) (t reflect.Type, ok bool) {
 				sf.Name = goName(k)
 				if rng.IntN(2) == 0 {
 					name = c15JSONNames[rng.IntN(len(c15JSONNames))]
+					if rng.IntN(3) == 0 {
+						name = c15GoNames[rng.IntN(8)] // collide with untagged fields
+					}
 					if isBig {
-						name = []string{"n", "N", "n_", "m-"}[rng.IntN(4)] + strconv.Itoa(rng.IntN(nf))
+						name = []string{"n", "N", "n_", "m-"}[k%4] + strconv.Itoa(k/2) // unique, with folded collisions
 					}
 				}
 				if rng.IntN(5) == 0 {
@@ -746,7 +765,11 @@ func c15GenType(rng *rand.Rand, c *Ctx) (t reflect.Type, ok bool) {
 				case 2:
 					opts = append(opts, "case:strict")
 				}
-				switch rng.IntN(60) {
+				weird := rng.IntN(60)
+				if isBig {
+					weird = 10 + rng.IntN(2000)
+				}
+				switch weird {
 				case 0:
 					opts = append(opts, "format:x")
 				case 1:
@@ -1081,6 +1104,15 @@ func c15CheckCase(c *Ctx, rng *rand.Rand, cs *c15Case, names []string, oa []stri
 	if rule.Fallback != nil {
 		c.Hit("graph/fallback")
 	}
+	if rule.Shadowed > 0 {
+		c.Hit("graph/name-decided-by-depth")
+	}
+	if rule.TieBroken > 0 {
+		c.Hit("graph/tie-broken-by-explicit-name")
+	}
+	if rule.TieDropped > 0 {
+		c.Hit("graph/tie-all-dropped")
+	}
 	if rule.DupQuirk {
 		c.Hit("graph/dup-embed-shape")
 	}
@@ -1102,6 +1134,9 @@ func c15CheckCase(c *Ctx, rng *rand.Rand, cs *c15Case, names []string, oa []stri
 		}
 		if strings.HasPrefix(o, "E ") {
 			c.Hit("model/err/" + o[2:])
+			if nfields > 64 {
+				c.Hit("model/big-err/" + o[2:])
+			}
 			o = "E"
 		}
 		if strings.Join(strings.Fields(o), " ") != strings.Join(strings.Fields(impl), " ") {
@@ -1425,6 +1460,11 @@ func c15CheckMarshal(c *Ctx, rng *rand.Rand, cs *c15Case) {
 						return
 					}
 					c.Hit("roundtrip/ok")
+					if len(ms) > 128 {
+						c.Hit("roundtrip/ok members>128")
+					} else if len(ms) > 64 {
+						c.Hit("roundtrip/ok members>64")
+					}
 				}
 			}
 			// classic encoding/json: same names, same order
